@@ -7,6 +7,8 @@ import json, glob, os, subprocess, sys, re
 
 EXTRA = {  # seeds that other properties' checks are also expected to notice
     "C19-2": ["C11"], "C09-1": ["C03"], "C07-2": ["C12"], "C16-1": ["C18"], "C14-1": ["C15"],
+    "C19-4": ["C06"], "C07-4": ["C19"], "C19-3": ["C07"], "C10-3": ["C09", "C11"], "C13-4": ["C04"], "C18-3": ["C09"], "C18-4": ["C16"],
+    "C15-3": ["C14"], "C15-4": ["C14"], "C16-4": ["C18"], "C01-4": ["C04"], "C04-4": ["C01"], "C03-4": ["C01"], "C05-3": ["C02"], "C02-4": ["C05"],
 }
 
 def sh(cmd, **kw):
